@@ -1,2 +1,8 @@
 //! Harness library: shared machinery for the checks that link the real rustrtc crate.
 pub use vcore::*;
+pub mod sctp_sim;
+pub mod sim;
+pub mod wire;
+pub mod srtp_common;
+pub mod c15;
+pub mod sctp_props;
